@@ -107,6 +107,41 @@ def native_setter_witness(src: str, meta: dict):
     return None
 
 
+FLOAT_DECLS = ["(declare-sort PyFloat 0)", "(declare-fun isfinite (PyFloat) Bool)", "(declare-fun fgt (PyFloat Real) Bool)", "(declare-fun flt (PyFloat Real) Bool)"]
+
+
+def float_setter_theory(e) -> None:
+    """comparisons of an abstract Python float with a literal: x > c is fgt(x, c), x < c is flt(x, c), x <= c is not fgt,
+    x >= c is not flt (and mirrored); chained comparisons are conjunctions (E-PY's Compare)"""
+    from fractions import Fraction
+
+    def const(it, v: float):
+        fr = Fraction(v)
+        return epy.VData("PyFloatConst", f"(/ {fr.numerator}.0 {fr.denominator}.0)" if fr >= 0 else f"(- (/ {-fr.numerator}.0 {fr.denominator}.0))")
+
+    e.intrinsics["float-constant"] = const
+    e.intrinsics["neg:PyFloatConst"] = lambda it, a: epy.VData("PyFloatConst", f"(- {a.t})")
+
+    def cmp(it, op, a, b):
+        flip = {ast.Gt: ast.Lt, ast.Lt: ast.Gt, ast.GtE: ast.LtE, ast.LtE: ast.GtE}
+        if getattr(a, "kind", "") == "PyFloatConst" and getattr(b, "kind", "") == "PyFloat":
+            a, b, op = b, a, flip[type(op)]()
+        if getattr(a, "kind", "") == "PyFloat" and getattr(b, "kind", "") == "PyFloatConst":
+            if isinstance(op, ast.Gt):
+                return epy.VBool(f"(fgt {a.t} {b.t})")
+            if isinstance(op, ast.Lt):
+                return epy.VBool(f"(flt {a.t} {b.t})")
+            if isinstance(op, ast.LtE):
+                return epy.VBool(f"(not (fgt {a.t} {b.t}))")
+            if isinstance(op, ast.GtE):
+                return epy.VBool(f"(not (flt {a.t} {b.t}))")
+        raise epy.OutOfSubset("float comparison")
+
+    e.binop_hooks["cmp:PyFloat"] = cmp
+    e.binop_hooks["cmp:PyFloatConst"] = cmp
+    e.used("Python floats are an abstract sort with the predicates the generated code uses (isfinite, comparison with a literal); float(x) of a float is x")
+
+
 def py_native(run, args):
     """Bounded native stand-in (never counted as proved) for the clauses no contract reaches here: the REAL generated classes
     of corpus/pyo + vk + vkm + kw are executed in the overlay interpreter (NumPy from the offline wheelhouse): every field x
@@ -169,13 +204,13 @@ def main():
                 spec_fields: typing.Dict[str, typing.Any] = {}
                 for f in fields:
                     dt = f.data_type
-                    base = SInt if isinstance(dt, pydsdl.IntegerType) else (SBool if isinstance(dt, pydsdl.BooleanType) else SData("Opaque"))
+                    base = SInt if isinstance(dt, pydsdl.IntegerType) else (SBool if isinstance(dt, pydsdl.BooleanType) else (SData("PyFloat") if isinstance(dt, pydsdl.FloatType) else SData("Opaque")))
                     spec_fields["_" + pyid(f.name)] = SOpt(base) if is_union else base
                 contracts = []
                 overrides = {}
                 for f in fields:
                     dt = f.data_type
-                    kind = "int" if isinstance(dt, pydsdl.IntegerType) else ("bool" if isinstance(dt, pydsdl.BooleanType) else None)
+                    kind = "int" if isinstance(dt, pydsdl.IntegerType) else ("bool" if isinstance(dt, pydsdl.BooleanType) else ("float" if isinstance(dt, pydsdl.FloatType) else None))
                     if kind is None:
                         skipped[type(dt).__name__] = skipped.get(type(dt).__name__, 0) + 1
                         continue
@@ -196,6 +231,22 @@ def main():
                         rs = [Raises("ValueError", f"not ({lo} <= {argname} and {argname} <= {hi})",
                                      ensures=[("a-rejected-assignment-leaves-the-object-as-it-was", f"{unchanged} and {cleared_ok}")])]
                         ens.append(("in-range-value-is-stored", f"self._{pyid(f.name)} == {argname}"))
+                    elif kind == "float":
+                        # "raises ValueError iff the value is FINITE and outside the type's range" (non-finite values are stored);
+                        # float64 fields accept every float.  The bound is the pydsdl range as an exact rational: the setter's
+                        # literal must denote the same number.  Python floats are an abstract sort with the predicates the
+                        # generated code uses (isfinite, comparison with a constant).
+                        from fractions import Fraction
+                        mx = Fraction(dt.inclusive_value_range.max)
+                        mxt = f"(/ {mx.numerator}.0 {mx.denominator}.0)"
+                        others_unchanged = " and ".join(f"self._{pyid(g.name)} == old(self._{pyid(g.name)})" for g in fields if isinstance(g.data_type, (pydsdl.IntegerType, pydsdl.BooleanType))) or "True"
+                        cleared_ok = " and ".join(f"(self._{pyid(g.name)} is None) == (old(self._{pyid(g.name)}) is None)" for g in fields) if is_union else "True"
+                        if dt.bit_length < 64:
+                            rs = [Raises("ValueError", f"smt('Bool', '(and (isfinite {{0}}) (or (fgt {{0}} {mxt}) (flt {{0}} (- {mxt}))))', {argname})",
+                                         ensures=[("a-rejected-assignment-leaves-the-object-as-it-was", f"{others_unchanged} and {cleared_ok}")])]
+                        else:
+                            rs = []
+                        ens.append(("admissible-value-is-stored", f"smt('Bool', '(= {{0}} {{1}})', self._{pyid(f.name)}, {argname})"))
                     else:
                         rs = []
                         ens.append(("truth-value-is-stored", f"self._{pyid(f.name)} == {argname}"))
@@ -204,8 +255,10 @@ def main():
                         if others:
                             ens.append(("every-other-option-is-cleared", " and ".join(f"self._{pyid(g.name)} is None" for g in others)))
                     label = f"{tn}.{f.name}"
-                    c = Contract(target=f"<generated {path.relative_to(out).as_posix()} {'.'.join(cpath)}.{f.name}>:G.setter", params={"self": SObj("G", dict(spec_fields)), argname: SInt if kind == "int" else SBool},
-                                 raises=rs, ensures=ens, modifies=[f"self._{pyid(g.name)}" for g in (fields if is_union else [f])], label=label, decls=["(declare-sort Opaque 0)"])
+                    c = Contract(target=f"<generated {path.relative_to(out).as_posix()} {'.'.join(cpath)}.{f.name}>:G.setter", params={"self": SObj("G", dict(spec_fields)), argname: SInt if kind == "int" else (SData("PyFloat") if kind == "float" else SBool)},
+                                 raises=rs, ensures=ens, modifies=[f"self._{pyid(g.name)}" for g in (fields if is_union else [f])], label=label, decls=["(declare-sort Opaque 0)"] + FLOAT_DECLS)
+                    if kind == "float":
+                        c.bindings = {"_np_": epy.VConst({"isfinite": epy.VConst(lambda it, x: epy.VBool(f"(isfinite {x.t})"))}), "float": epy.VConst(lambda it, x: x)}
                     c.meta = {"kind": kind, "field": "_" + pyid(f.name), "arg": argname, "lo": lo if kind == "int" else 0, "hi": hi if kind == "int" else 1,
                               "others": ["_" + pyid(g.name) for g in others] if is_union else [], "all": ["_" + pyid(g.name) for g in fields], "union": is_union}
                     contracts.append(c)
@@ -215,6 +268,10 @@ def main():
                 for c in contracts:
                     eng = epy.Engine(SRC)
                     eng.ghost_classes = set()
+                    float_setter_theory(eng)
+                    if c.meta["kind"] == "float":  # no native re-run of an extracted float setter: the native data-object leg covers it
+                        driver.verify_contracts(run, eng, [c], text_overrides={c.target: overrides[c.target]})
+                        continue
                     driver.verify_contracts(run, eng, [c], text_overrides={c.target: overrides[c.target]},
                                             witness={c.qualname + f"[{c.label}]": (lambda c=c: native_setter_witness(overrides[c.target], c.meta)), c.qualname: (lambda c=c: native_setter_witness(overrides[c.target], c.meta))})
                 # embedded model
